@@ -211,7 +211,8 @@ def directed_teardown(ctx):
     return cases
 
 
-WS_LABELS = ["tab\there", "two  spaces", "a \t b"]
+# (... and names that do not fit on a line of the terminal: they are listed in full, too)
+WS_LABELS = ["tab\there", "two  spaces", "a \t b", "a_descriptive_name_that_says_what_is_tested_" * 3, "p" * 200 + " end"]
 
 
 def directed_whitespace(ctx):
@@ -219,14 +220,14 @@ def directed_whitespace(ctx):
     tests as they are called"""
     rng = ctx.rng
     cases = []
-    for i in range(3 if ctx.quick() else 30):
+    for i in range(5 if ctx.quick() else 30):
         w = worlds.gen_world(rng, n_layers=rng.choice([2, 3]), tests_per_layer=(1, 3), p_fault=0.0, p_write=0.0,
                              kinds=["fail", "error", "pass", "subFail"])
         for t in w["tests"]:
             for k in ("rebind", "ownstream", "doctest"):
                 t.pop(k, None)
             t["label"] = WS_LABELS[(i + t["id"]) % len(WS_LABELS)]
-        cases.append(cw.Case(w, {"verbose": rng.choice([1, 2]), "processes": rng.choice([2, 3])}, "directed:whitespace-names"))
+        cases.append(cw.Case(w, {"verbose": rng.choice([1, 2]), "processes": rng.choice([1, 2, 3])}, "directed:whitespace-names"))
     return cases
 
 
